@@ -120,6 +120,11 @@ func (f *RawMessageFilter) ConsumeCacheMessages(consensusMessagesHandler Consens
 		f.logger.Debug("LHFILTER consuming %d messages from height=%d", len(messages), height)
 	}
 	for _, message := range messages {
+		if f.state.Height() != height {
+			// a consumed message committed this height and started the next one (which installed its own
+			// handler and consumed its own cache); what is left belongs to a past height
+			break
+		}
 		f.processConsensusMessage(message)
 	}
 	delete(f.futureCache, height)
